@@ -244,6 +244,11 @@ func (sw *SW) pickAlloc(vw *View, k int64, mode int64) (string, *AllocView) {
 	if len(ids) == 0 {
 		return "", nil
 	}
+	if mode%4 == 2 {
+		// the most recently created open allocation (ids are kept in creation order)
+		id := ids[len(ids)-1]
+		return id, vw.Allocs[id]
+	}
 	id := ids[abs(k)%int64(len(ids))]
 	return id, vw.Allocs[id]
 }
